@@ -79,7 +79,8 @@ class C01(Check):
                     if k1 == "tmp" and quick:
                         continue
                     for (t2, v2) in vals:
-                        if quick and (len(t2) > 1 or vals.index((t2, v2)) % 2):
+                        # quick tier: the boundary values (INT64 extremes, -1, NaN, inf, huge, empty) always, the ordinary ones thinned
+                        if quick and (len(t2) > 1 or ((t2, v2) in VALS and VALS.index((t2, v2)) % 2)):
                             continue
                         e2, s2 = operand(v2, "y", "var")
                         add("bi", f, "%s(%s, %s)" % (f, e1, e2), s1 + s2)
